@@ -83,8 +83,13 @@ def main():
             shutil.copy(os.path.join(src, 'demo.py'), os.path.join(dst, 'demo.py'))
             if os.path.exists(os.path.join(src, 'README.md')):
                 shutil.copy(os.path.join(src, 'README.md'), os.path.join(dst, 'README.md'))
+            first = res['detected_by_own_check']
+            if os.path.exists(os.path.join(dst, 'meta.json')):
+                with open(os.path.join(dst, 'meta.json')) as fh:
+                    first = json.load(fh).get('first_pass_detected', first)
             meta = {
                 'property': prop,
+                'first_pass_detected': first,
                 'source': 'independent sub-agent given only the property text and its own scratch worktree',
                 'needs_to_manifest': open(os.path.join(src, 'README.md')).read()[:1500] if os.path.exists(os.path.join(src, 'README.md')) else '',
                 'what_i_ran': 'scratch worktree of /repo HEAD: demo on clean tree (exit %s); git apply patch.diff; baseline suite (%s); demo with patch (exit %s); every claimed check with WPULL_ROOT=<worktree>'
